@@ -50,3 +50,27 @@ package decoder
 //@   loop 0: decreases numCodewords - i
 //@   loop 1: invariant 0 <= i && i <= numDataCodewords && len(codewordsInts) == numCodewords && (forall k int :: 0 <= k && k < i ==> codewordBytes[k] == byte(codewordsInts[k])) && (forall k int :: i <= k && k < len(codewordBytes) ==> codewordBytes[k] == old(codewordBytes[k]))
 //@   loop 1: decreases numDataCodewords - i
+
+// Base 256 segment (5.2.9): the length field is one byte below 250, otherwise 250*(d1-249)+d2; 0 means "to the end of the symbol";
+// the buffer is allocated with a valid size, every byte is read only while 8 bits are available
+//@ func decodeBase256Segment(bits *common.BitSource, result []byte, byteSegments [][]byte) (r []byte, segs [][]byte, e error)
+//@   property C02 C06
+//@   opt check=asserts,safety.make,safety.index
+//@   requires bits != nil && common.wfBS(bits) && len(bits.bytes) <= 1000000
+//@   assert call(Bytes,0): len(bytes) == count && 0 <= count && common.availBS(bits) + 8 * count <= old(common.availBS(bits))
+//@   loop 0: invariant 0 <= i && i <= count && len(bytes) == count && common.wfBS(bits) && bits.bytes == old(bits.bytes) && common.availBS(bits) + 8 * i <= old(common.availBS(bits))
+//@   loop 0: decreases count - i
+
+// C40 / Text / X12 triplets (5.2.5.2): two codewords carry 1600*c1 + 40*c2 + c3 + 1
+//@ func parseTwoBytes(firstByte int, secondByte int, result []int)
+//@   property C02 C06
+//@   requires len(result) >= 3 && 0 <= firstByte && firstByte <= 255 && 0 <= secondByte && secondByte <= 255
+//@   let v = firstByte * 256 + secondByte - 1
+//@   ensures result[0] == v / 1600 && result[1] == (v % 1600) / 40 && result[2] == v % 40
+//@   ensures forall k int :: 3 <= k && k < len(result) ==> result[k] == old(result[k])
+//@   modifies result[*]
+//@ lemma c40TripletRoundTrip(c1 int, c2 int, c3 int)
+//@   property C02
+//@   requires 0 <= c1 && c1 < 40 && 0 <= c2 && c2 < 40 && 0 <= c3 && c3 < 40
+//@   let v = 1600 * c1 + 40 * c2 + c3 + 1
+//@   ensures 1 <= v && v <= 64000 && v / 256 <= 255 && ((v / 256) * 256 + v % 256 - 1) / 1600 == c1 && (((v / 256) * 256 + v % 256 - 1) % 1600) / 40 == c2 && ((v / 256) * 256 + v % 256 - 1) % 40 == c3
